@@ -32,12 +32,13 @@ def check(ctx):
     if quick:
         hs, fr, kn = ptgrun.make_jobs(progs + neg, exes, ORACLE, True, '0,1:1', '0,1:1', (1, 2, 4), 2, 5, 2, 14, 16)
     else:
-        hs, fr, kn = ptgrun.make_jobs(progs + neg, exes, ORACLE, False, '0,1:1,2:3', grid, (1, 2, 3, 4, 8), 2, 6, 3, 150, 240)
+        hs, fr, kn = ptgrun.make_jobs(progs + neg, exes, ORACLE, False, '0,1:1,2:3', grid, (1, 2, 3, 4, 8), 2, 6, 3, 110, 200)
     ctx.notes.append('%d programs, %d variants; %d variants refused by the reference interpreter' % (len(progs), sum(len(p.variants) for p in progs), refused))
     R.run_jobs(hs, 'hsched-all-task-orders')
     R.run_jobs(fr, 'free-running-configuration-box')
     R.run_jobs(kn, 'recorded-findings (negative steps, index-array non-range parameters)', stop_on_violation=False)
     ctx.notes += R.notes
+    R.cleanup()
     return ctx.finish(RULE, ['task bodies and runtime actions atomic at the task level (primitives: E1 checks)',
                              'single process, shared memory; placement always rank 0',
                              'reference interpreter (engine/rt/ptgir.py) defines the valid-program semantics'])
